@@ -15,6 +15,19 @@ tuple).  What is proved is `roundtrip_partial` with the one extra hypothesis spe
 out: the elements of untyped containers are JSON-native (no nested tuple, no
 non-string key).  Years below 1000 round-trip since `_strftime` pads the year.
 
+Theorems: `roundtrip_partial` (per parameter, every reachable state `stateOK`),
+`text_is_standard_json`, `roundtrip_parameters` / `roundtrip_parameters_narrowed`
+(object level, `subset=` on either side), `rebuilt_object_equal` (the constructor, modelled
+by `modelRebuild`, accepts the arguments and the rebuilt object holds the same values —
+needs accepted values `validB`), `not_native_not_restored` (sharpness: whenever the extra
+hypothesis fails the value is *not* restored).
+
+Not covered by any theorem (model assumptions, tied to the code by the harness only):
+`json.dumps`/`json.loads` are tree identities on JSON-native values (float text round trip
+and everything else about the text except NaN/Infinity tokens is CPython's); class level vs
+instance level (the model has states, not objects); histories (add_parameter, class default
+after per-instance Parameters exist, repeated deserialization of one text).
+
 Equality is equality of `PyVal`, in which the exact Python type is a constructor
 (int vs float vs bool, list vs tuple, date vs datetime, None).
 
@@ -25,24 +38,8 @@ import ParamVerif.Json.Lemmas
 
 namespace ParamVerif.Json
 
-/-- "naive datetime values for Date parameters": a `dt.date` held by a Date parameter
-is outside the statement (it is accepted, and comes back as a datetime). -/
-def inStatement (c : PCfg) (v : PyVal) : Bool :=
-  match c, v with
-  | .date, .date .. => false
-  | _, _ => true
-
-/-- the extra hypothesis: what JSON can carry.  Elements of an untyped Tuple / List /
-Dict / Selector value are JSON-native (no tuple, no date, string keys). -/
-def nativeElems (c : PCfg) (v : PyVal) : Bool :=
-  match c, v with
-  | .tuple _, .tuple l => PyVal.jsonNativeL l
-  | .list .., v => v.jsonNative
-  | .dict, v => v.jsonNative
-  | .selector _, v => v.jsonNative
-  | .listSelector _, v => v.jsonNative
-  | .classSelector _, v => v.jsonNative
-  | _, _ => true
+-- `inStatement` (a Date parameter holds a datetime, not a date) and `nativeElems` (the extra
+-- hypothesis: untyped containers hold JSON-native elements) are defined in Json/Spec.lean.
 
 /-- one parameter round-trips: `deserialize_value(serialize_value())` restores value and
 type, and the text is standard JSON -/
@@ -101,13 +98,23 @@ theorem rt_none {p : Param} (hs : p.cfg.serialize .none = .ok .none)
     (hd : p.cfg.deserialize .none = .ok .none) : RoundTrips p .none :=
   ⟨.null, by simp [serializeValue, hs, dumps], rfl, by simp [deserializeValue, loads, hd]⟩
 
-/-- **C15 (per parameter), provable part.**  A valid, finite value inside the statement whose
+/-- **C15 (per parameter), provable part.**  A reachable (`stateOK`), finite value inside the statement whose
 untyped containers hold JSON-native elements is restored
 by `deserialize_value(serialize_value())` with equal value and equal Python type, and the text
-is standard JSON.  All 17 parameter types, `None` included. -/
-theorem roundtrip_partial (p : Param) (v : PyVal) (hv : p.validB v = true) (hf : v.finite = true)
+is standard JSON.  All 17 parameter types, `None` included — also the `None` default of a
+Selector / ListSelector that its own validator would not accept (`stateOK`). -/
+theorem roundtrip_partial (p : Param) (v : PyVal) (hst : p.stateOK v = true) (hf : v.finite = true)
     (hs : inStatement p.cfg v = true) (hn : nativeElems p.cfg v = true) :
     RoundTrips p v := by
+  -- a reachable state is an accepted value or the (never validated) `None` default
+  have hcases : p.validB v = true ∨ v = .none := by
+    unfold Param.stateOK at hst
+    simp only [Bool.or_eq_true] at hst
+    rcases hst with h | h
+    · exact Or.inl h
+    · right; split at h <;> simp_all
+  rcases hcases with hv | rfl
+  case inr => exact rt_none (serialize_none _) (deserialize_none _)
   obtain ⟨name, cfg, an, dflt, doc, label⟩ := p
   cases cfg with
   | integer b =>
@@ -212,7 +219,7 @@ theorem text_is_standard_json (p : Param) (v : PyVal) (j : Json) (hf : v.finite 
 
 /-- the hypotheses of `roundtrip_partial`, for one entry of a state -/
 def EntryOK (pv : Param × PyVal) : Prop :=
-  pv.1.validB pv.2 = true ∧ pv.2.finite = true ∧ inStatement pv.1.cfg pv.2 = true ∧
+  pv.1.stateOK pv.2 = true ∧ pv.2.finite = true ∧ inStatement pv.1.cfg pv.2 = true ∧
   nativeElems pv.1.cfg pv.2 = true
 
 /-- **C15 (object level, and under `subset=`).**  For a class with distinct parameter names and a
@@ -248,11 +255,57 @@ theorem roundtrip_parameters_narrowed (st : List (Param × PyVal)) (s1 s2 : Opti
       exact roundtrip_partial pv.1 pv.2 h1 h2 h3 h4)
   exact ⟨fields, h1, h3⟩
 
-/-- the deserialized arguments are accepted by the constructor: each is the valid value it was -/
-theorem rebuilt_arguments_valid (st : List (Param × PyVal)) (subset : Option (List String))
-    (h : ∀ pv ∈ st, EntryOK pv) :
-    ∀ pv ∈ st.filter (fun pv => inSubset subset pv.1.name), pv.1.validB pv.2 = true :=
-  fun pv hpv => (h pv (List.mem_filter.1 hpv).1).1
+/-- **C15: "… constructor arguments that rebuild an object with equal values".**  When moreover
+every value is one the Parameter's validator accepts (`validB`; `stateOK` alone is not enough: the
+unvalidated `None` default of a ListSelector is rejected by the constructor), the constructor
+(`modelRebuild`: each keyword validated by the Parameter found under its name) accepts the
+arguments obtained from `deserialize_parameters(serialize_parameters())` and the rebuilt object
+holds, parameter by parameter in declaration order, exactly the values of the original. -/
+theorem rebuilt_object_equal (st : List (Param × PyVal))
+    (hnd : ((st.map (·.1)).map (·.name)).Nodup) (h : ∀ pv ∈ st, EntryOK pv)
+    (hv : ∀ pv ∈ st, pv.1.validB pv.2 = true) :
+    ∃ fields args, serializeParameters st none = .ok fields ∧
+      deserializeFields (st.map (·.1)) none fields = .ok args ∧
+      modelRebuild (st.map (·.1)) args = .ok (st.map (fun pv => (pv.1.name, pv.2))) := by
+  obtain ⟨fields, h1, _, h3⟩ := roundtrip_parameters st none hnd h
+  refine ⟨fields, _, h1, h3, ?_⟩
+  have : st.filter (fun pv => inSubset none pv.1.name) = st := by
+    simp [inSubset]
+  rw [this]
+  exact rebuild_state st hnd hv
+
+/-- **Sharpness of the extra hypothesis.**  Whenever `nativeElems` fails — a tuple, a date or a
+non-string key inside an untyped Tuple / List / Dict / Selector / ClassSelector value — and the
+value serializes at all, `deserialize_value` does *not* give the value back: `roundtrip_partial`
+is the whole provable part, not one lucky witness away from `C15_full`. -/
+theorem not_native_not_restored (p : Param) (v : PyVal) (hn : nativeElems p.cfg v = false)
+    (j : Json) (hs : serializeValue p v = .ok j) : deserializeValue p j ≠ .ok v := by
+  intro hd
+  obtain ⟨name, cfg, an, dflt, doc, label⟩ := p
+  have identity : ∀ c : PCfg, c.isIdentity = true → c.deserialize (loads j) = .ok v → v.jsonNative = true := by
+    intro c hc h
+    rw [deserialize_identity hc] at h
+    have := loads_jsonNative j
+    simp only [Except.ok.injEq] at h
+    rw [h] at this; exact this
+  cases cfg <;> simp only [nativeElems] at hn
+  case tuple n =>
+    cases v <;> simp at hn
+    rename_i l
+    simp only [serializeValue, PCfg.serialize, asList, dumps] at hs
+    split at hs
+    · rename_i js _
+      simp only [Except.ok.injEq] at hs; subst hs
+      simp [deserializeValue, loads, PCfg.deserialize, isNullish, asTuple] at hd
+      have := loadsL_jsonNative js
+      rw [hd] at this; simp [this] at hn
+    · simp at hs
+  case list it lo hi => have := identity _ rfl hd; simp [this] at hn
+  case dict => have := identity _ rfl hd; simp [this] at hn
+  case selector objs => have := identity _ rfl hd; simp [this] at hn
+  case listSelector objs => have := identity _ rfl hd; simp [this] at hn
+  case classSelector sp => have := identity _ rfl hd; simp [this] at hn
+  all_goals simp at hn
 
 /-! ### Non-vacuity: concrete non-trivial states satisfying the hypotheses -/
 
